@@ -449,8 +449,12 @@ def cases(tier, seed):
             for a in PAIR_ATTRS:
                 cs.append(dict(name=f'hist1-readpairs-{s}-{a}', start=s,
                                steps=1, reads=2, read0=[a]))
-            cs.append(dict(name=f'hist2-{s}', start=s, steps=2, reads=1,
+            # two mutators: full argument range first, reduced second
+            cs.append(dict(name=f'hist2-{s}', start=s, steps=2, reads=0,
                            reduced=True))
+            # read - mutate - read - mutate with reduced arguments
+            cs.append(dict(name=f'hist2-reads-{s}', start=s, steps=2,
+                           reads=1, reduced_all=True))
     return cs
 
 
